@@ -169,7 +169,7 @@ func batch(args []string) {
 			plan = ig.GenIndexed(*prop, *tier, *sysFrom+step)
 		} else {
 			idx = *from + (step - nSys)
-			if *maxWall > 0 && idx%16 == 0 && time.Since(start) > *maxWall {
+			if *maxWall > 0 && time.Since(start) > *maxWall {
 				break
 			}
 		}
@@ -180,6 +180,7 @@ func batch(args []string) {
 		var rep *detsim.RunReport
 		var rec []detsim.Choice
 		var subV *detsim.Violation
+		runStart := time.Now()
 		if fp, ok := e.(detsim.FreshProcesser); ok && fp.FreshProcess(plan) {
 			rep, rec, subV = runFresh(e, *prop, *tier, *seed, idx, runSeed, plan, *rdir)
 			res.Counters.Add("runs_in_a_fresh_process", 1)
@@ -189,6 +190,13 @@ func batch(args []string) {
 			rep = e.Run(plan, ch)
 			atomic.StoreInt32(&simRunning, 0)
 			rec = ch.Rec
+		}
+		if d := time.Since(runStart); d > 3*time.Second && os.Getenv("VERIF_SLOW") != "" {
+			b, _ := json.Marshal(plan)
+			if len(b) > 400 {
+				b = b[:400]
+			}
+			fmt.Fprintf(os.Stderr, "SLOW run %d: %v steps=%d %s\n", idx, d, rep.Steps, b)
 		}
 		if step >= nSys {
 			res.To = idx + 1
@@ -444,7 +452,7 @@ func runFresh(e detsim.Engine, prop, tier string, seed, idx, runSeed uint64, pla
 	cmd := exec.Command(os.Args[0], "replay", "-out", outp, in)
 	env := os.Environ()
 	if pfx := raceLogPrefix(); pfx != "" {
-		env = append(env, "GORACE=halt_on_error=0 exitcode=66 history_size=7 log_path="+in+".race")
+		env = append(env, "GORACE=halt_on_error=0 exitcode=66 history_size=7 atexit_sleep_ms=0 log_path="+in+".race")
 		defer func() {
 			m, _ := filepath.Glob(in + ".race.*")
 			for _, f := range m {
